@@ -66,7 +66,8 @@ func badGo(a int) int      { go ok1(a, a); return a }
 func badDefer(a int) int   { defer ok1(a, a); return a }
 func ok5(a int) int     { for i := 0; i < a; i++ { a-- }; return a }
 func ok6(a int) int   { for a > 0 { a-- }; return a }
-func badForever(a int) int { for { a-- }; return a }
+func ok7(a int) int { for { a--; if a < 0 { break } }; return a }
+func badSelect(c chan int) int { select { case <-c: return 1; default: }; return 0 }
 func badShadow(a int) int  { if a > 0 { a := 1; return a }; return a }
 func badFall(a int) int    { switch a { case 1: a = 2; fallthrough; case 2: a = 3 }; return a }
 func badCall(a int) int    { return ok1(a, a) }
@@ -95,7 +96,7 @@ func TestBodySubset(t *testing.T) {
 	Repo = dir
 	defer func() { Repo = old }()
 
-	for _, name := range []string{"ok1", "ok2", "ok3", "ok5", "ok6"} {
+	for _, name := range []string{"ok1", "ok2", "ok3", "ok5", "ok6", "ok7"} {
 		out := GenBody(&FnSpec{Dir: "util", Name: name, Lean: name})
 		if strings.Contains(out, "unsupported_") {
 			t.Errorf("%s: inside the subset but rendered with an unsupported marker:\n%s", name, out)
@@ -121,7 +122,7 @@ func TestBodySubset(t *testing.T) {
 			t.Errorf("ok2: missing %q in\n%s", want, out)
 		}
 	}
-	for _, name := range []string{"badGo", "badDefer", "badForever", "badShadow", "badFall", "badCall", "badDiv",
+	for _, name := range []string{"badGo", "badDefer", "badSelect", "badShadow", "badFall", "badCall", "badDiv",
 		"badMap", "badFloat", "badClosure", "badLabel", "badSlice3", "badField", "badNamed", "badVariadic", "doesNotExist"} {
 		out := GenBody(&FnSpec{Dir: "util", Name: name, Lean: name})
 		if !strings.Contains(out, "unsupported_") {
